@@ -302,6 +302,9 @@ func driveC13(o opts) error {
 			goFails = append(goFails, map[string]interface{}{"stage": kind, "what": what})
 		}
 	}
+	if err := c13Generated(o, goFail, func(k string, n int) { w.Dist[k] += n }); err != nil {
+		return err
+	}
 	nB := ncases / 5
 	for bi := 0; bi < nB; bi++ {
 		if err := c13ClientRound(g, sc, o.out, w, goFail); err != nil {
